@@ -36,7 +36,7 @@ TAct ==
     \/ Is("read") /\ Read(<<E.p, E.side>>, E.n) /\ last'.res = E.res /\ last'.bytes = E.bytes
     \/ Is("shutdown") /\ Shutdown(<<E.p, E.side>>) /\ last'.res = E.res
     \/ Is("close") /\ Close(<<E.p, E.side>>)
-    \/ Is("udp") /\ Udp(E.n) /\ last'.res = E.res
+    \/ Is("udp") /\ Udp(E.n, E.mode) /\ last'.res = E.res
     \/ Is("egress") /\ EgressAll /\ last'.pk = E.pk
     \/ Is("deliver") /\ Deliver(E.i) /\ last'.p = E.p
     \/ Is("drop") /\ DropPk(E.i)
